@@ -152,7 +152,11 @@ def templates(include_never=False):
         for i, (text, ctx, std) in enumerate(lst):
             if std == "never" and not include_never:
                 continue
-            out.append(("%s%03d" % (default_kind[0].upper(), i), text, ctx, std))
+            # ids are derived from the template text so that they stay stable
+            # when templates are added (they appear in violation signatures)
+            import hashlib
+
+            out.append(("%s%s" % (default_kind[0].upper(), hashlib.sha1(text.encode()).hexdigest()[:5]), text, ctx, std))
     return out
 
 
